@@ -1704,3 +1704,139 @@ Lemma table2d_ext_fixed_records :
   rverr (rbuild_ext_fixed [SB (SInt 0 2); SB (SInt 0 2); SCall (RTable2D [[0%nat; 1%nat]] [[0; 1; 2]; [1; 2]])]) = true /\
   rverr (rbuild_ext_fixed [SB (SInt 0 2); SB (SInt 0 2); SCall (RTable3D [[[0%nat; 1%nat]]] [[0; 1; 2]; [1; 2]])]) = true.
 Proof. vm_compute. split; reflexivity. Qed.
+
+(* ------------------------------------------------------------------------------------------ *)
+(* 11. the repairs routes_gcc_len / routes_empty_domain_read (Model/Routes.v call_fix2 / rbuild_fix2) *)
+
+(* a store with an empty domain is rejected by validation whatever the propagators *)
+Lemma rvalidate_empty : forall s ps, existsb dempty s = true -> rvalidate s ps = Some VInvalidDomain.
+Proof. intros s ps H. unfold rvalidate. rewrite H. reflexivity. Qed.
+
+(* the posting methods that derive their result variable from the operands' bounds *)
+Definition reads_bounds (r : route) : bool :=
+  match r with
+  | RAdd _ _ | RSub _ _ | RMul _ _ | RMod _ _ | RAbs _ | RSum _ | RSumIter _ => true
+  | RMin (_ :: _) | RMax (_ :: _) | RArrMin (_ :: _) | RArrMax (_ :: _) => true
+  | _ => false
+  end.
+Lemma reads_bounds_simple : forall r, reads_bounds r = true -> simple_ret r = true.
+Proof. intros r H; destruct r; try discriminate; try reflexivity; destruct xs; try discriminate; reflexivity. Qed.
+Lemma call_fix2_reads : forall r m, reads_bounds r = true ->
+  call_fix2 r m = ret_result2 (route_bounds (fst (rst m)) r) (route_desc r) m.
+Proof. intros r m H; destruct r; try discriminate; try reflexivity; destruct xs; try discriminate; reflexivity. Qed.
+
+(* operands with non-empty domains: nothing changes *)
+Theorem call_fix2_same : forall r m b, reads_bounds r = true -> route_bounds (fst (rst m)) r = Some b ->
+  call_fix2 r m = call r m.
+Proof.
+  intros r m b H Hb. rewrite (call_fix2_reads r m H), (call_simple_ret r m (reads_bounds_simple r H)), Hb.
+  unfold ret_result2, ret_result, result_var_opt. destruct (result_var b (route_desc r) (rst m)); reflexivity.
+Qed.
+(* an operand with an EMPTY domain: no panic; the result variable gets the empty domain, the propagator is posted,
+   and validation rejects the model with InvalidDomain whatever else is posted *)
+Theorem call_fix2_empty_operand : forall r m, reads_bounds r = true -> route_bounds (fst (rst m)) r = None ->
+  let n := rnvars (rst m) in let m' := call_fix2 r m in
+  rpanic m' = rpanic m /\ rcallerr m' = rcallerr m /\ rverr m' = rverr m /\ rpend m' = rpend m /\ ruser m' = ruser m ++ [n] /\
+  fst (rst m') = fst (rst m) ++ [[]] /\ snd (rst m') = snd (rst m) ++ [route_desc r n] /\
+  (forall s' ps, (exists t, s' = fst (rst m') ++ t) -> rvalidate s' ps = Some VInvalidDomain) /\
+  rpanic (call r m) = true.
+Proof.
+  intros r m H Hb n m'. unfold m'. rewrite (call_fix2_reads r m H), (call_simple_ret r m (reads_bounds_simple r H)), Hb.
+  unfold ret_result2, ret_result, result_var_opt, rnew_var, give, with_st, rpush, panic. simpl.
+  repeat (split; [reflexivity|]). split; [|reflexivity].
+  intros s' ps [t ->]. apply rvalidate_empty. rewrite !existsb_app. simpl. rewrite orb_true_r. reflexivity.
+Qed.
+Theorem call_fix2_no_panic : forall r m, reads_bounds r = true -> rpanic (call_fix2 r m) = rpanic m.
+Proof.
+  intros r m H. rewrite (call_fix2_reads r m H). unfold ret_result2.
+  destruct (result_var_opt (route_bounds (fst (rst m)) r) (route_desc r) (rst m)); reflexivity.
+Qed.
+
+(* Model::gcc *)
+Theorem gcc_fix2_records : forall xs vals cnts m, length vals <> length cnts ->
+  let m' := call_fix2 (RGcc xs vals cnts) m in
+  rverr m' = true /\ rpanic m' = rpanic m /\ rcallerr m' = rcallerr m /\ rst m' = rst (call (RGcc xs vals cnts) m) /\
+  forall a, route_sem (RGcc xs vals cnts) 0%nat a = false.
+Proof.
+  intros xs vals cnts m H. apply Nat.eqb_neq in H. unfold call_fix2. rewrite H. simpl.
+  repeat (split; [reflexivity|]). intro a. unfold route_sem. simpl. rewrite H. reflexivity.
+Qed.
+Theorem gcc_fix2_same : forall xs vals cnts m, length vals = length cnts ->
+  call_fix2 (RGcc xs vals cnts) m = call (RGcc xs vals cnts) m.
+Proof. intros xs vals cnts m H. apply Nat.eqb_eq in H. unfold call_fix2. rewrite H. reflexivity. Qed.
+
+(* on the programs covered by the C01 theorems (calls_ok: operands with non-empty domains, no gcc) the repairs
+   change nothing: C01 + C03 for route programs hold for the repaired tree *)
+Lemma call_fix2_ok : forall r m, call_ok r m -> fixed_same r = true -> call_fix2 r m = call r m.
+Proof.
+  intros r m [_ [[Hs [b [Hb _]]]|Hd]] Hf.
+  - destruct (reads_bounds r) eqn:Hr; [apply (call_fix2_same r m b Hr Hb)|].
+    destruct r; try discriminate; try reflexivity; destruct xs; try discriminate; reflexivity.
+  - destruct r; try discriminate; try reflexivity.
+    simpl in Hd, Hf. unfold call_fix2, call_ext_fixed, call_fixed. rewrite Hf. reflexivity.
+Qed.
+Lemma fold_calls_fix2 : forall calls m, sstore (fst (rst m)) -> calls_ok calls m -> forallb fixed_same calls = true ->
+  rpanic m = false -> rcallerr m = false ->
+  fold_left (fun m s => rexec_fix2 s m) (map SCall calls) m = fold_left step_call calls m.
+Proof.
+  induction calls as [|r rest IH]; intros m Hss Hok Hf Hp Hc; simpl; [reflexivity|].
+  destruct Hok as [Hc1 Hrest]. simpl in Hf. apply andb_true_iff in Hf. destruct Hf as [Hf1 Hf2].
+  assert (E : rexec_fix2 (SCall r) m = step_call m r).
+  { unfold rexec_fix2, step_call. rewrite Hp, Hc. simpl. apply call_fix2_ok; [exact Hc1|].
+    clear -Hf1. destruct r; simpl in *; try reflexivity; try discriminate; try exact Hf1.
+    - unfold table_okb in *. rewrite map_length. exact Hf1.
+    - rewrite map_length. exact Hf1.
+    - rewrite rows_okb_map. exact Hf1.
+    - rewrite cube_okb_map. exact Hf1. }
+  rewrite E. destruct (call_ok_step _ m Hss Hc1) as [Hp1 [Hce1 [_ [Hss1 _]]]].
+  apply IH; auto; unfold step_call; congruence.
+Qed.
+Lemma rexec_fix2_decl : forall d m, rexec_fix2 (SB d) m = rexec (SB d) m. Proof. reflexivity. Qed.
+Lemma fold_decls_fix2 : forall (ds : list stmt) m,
+  fold_left (fun m s => rexec_fix2 s m) (map SB ds) m = fold_left (fun m s => rexec s m) (map SB ds) m.
+Proof. induction ds as [|d r IH]; intro m; simpl; [reflexivity|]. rewrite rexec_fix2_decl. apply IH. Qed.
+Theorem routes_model_solutions_fix2 : forall decls calls pick sols best,
+  forallb is_decl decls = true -> forallb fixed_same calls = true ->
+  let m0 := rbuild (map SB decls) in
+  calls_ok calls m0 ->
+  forall s ps, rlower (rbuild_fix2 (map SB decls ++ map SCall calls)) = RLOk s ps ->
+  rvalidate s ps = None ->
+  enumerate pick (map denote_route ps) s = SOk sols best ->
+  let means a := inst a (map decl_dom decls) /\ calls_means calls m0 a in
+  NoDup sols /\
+  (forall t, In t sols -> all_fixed t = true /\ means (asg_of t)) /\
+  (forall a, means a -> exists t, In t sols /\ inst a t).
+Proof.
+  intros decls calls pick sols best Hd Hf m0 Hok s ps Hl.
+  assert (E : rbuild_fix2 (map SB decls ++ map SCall calls) = rbuild (map SB decls ++ map SCall calls)).
+  { unfold rbuild_fix2, rbuild. rewrite !fold_left_app.
+    rewrite (fold_decls_fix2 decls rs0). fold (rbuild (map SB decls)). fold m0.
+    assert (E0 : m0 = mkrs (map decl_dom decls, []) [] (seq 0 (length decls)) false false false) by (apply rbuild_decls; exact Hd).
+    assert (Hss : sstore (fst (rst m0))) by (rewrite E0; simpl; apply decls_sstore).
+    rewrite (fold_calls_fix2 calls m0 Hss Hok Hf) by (rewrite E0; reflexivity).
+    rewrite (fold_calls calls m0 Hss Hok) by (rewrite E0; reflexivity). reflexivity. }
+  rewrite E in Hl.
+  exact (routes_model_solutions decls calls pick sols best Hd Hok s ps Hl).
+Qed.
+
+(* the former witnesses on the repaired model (case lines of known_findings.txt / corpus) *)
+Lemma empty_domain_fixed_invalid : exists s ps,
+  let m := rbuild_fix2 [SB (SInt 0 3); SB (SNew (CBin (EVar 0) OEq (EVal 7))); SCall (RAbs (OV 0%nat))] in
+  rpanic m = false /\ rlower m = RLOk s ps /\ s = [[]; [7]; []] /\ rvalidate s ps = Some VInvalidDomain /\
+  rpanic (rbuild_ext_fixed [SB (SInt 0 3); SB (SNew (CBin (EVar 0) OEq (EVal 7))); SCall (RAbs (OV 0%nat))]) = true.
+Proof. do 2 eexists. vm_compute. repeat split; reflexivity. Qed.
+Lemma empty_domain_fixed_routes :
+  forallb (fun r => let m := rbuild_fix2 [SB (SInt 3 1); SB (SInt 0 3); SCall r] in
+                    negb (rpanic m) && match rlower m with RLOk s ps => match rvalidate s ps with Some VInvalidDomain => true | _ => false end | RLPanic => false end)
+    [RAdd (OV 0%nat) (OV 1%nat); RSub (OV 1%nat) (OV 0%nat); RMul (OV 0%nat) (OC 2); RMod (OV 1%nat) (OV 0%nat); RAbs (OV 0%nat);
+     RMin [1%nat; 0%nat]; RMax [0%nat]; RArrMin [0%nat; 1%nat]; RArrMax [1%nat; 0%nat]; RSum [1%nat; 0%nat]; RSumIter [OV 0%nat; OC 1];
+     RFElement [1%nat; 0%nat] 1%nat; RCumulative [0%nat; 1%nat] [2; 2] [2; 2] 3] = true.
+Proof. vm_compute. reflexivity. Qed.
+Lemma api_on_empty_invalid : exists s ps,
+  lower (build [SInt 3 1; SInt 0 3; SApi FAdd 0%nat 1%nat]) = LOk s ps /\ s = [[]; [0; 1; 2; 3]; []] /\ validate s ps = Some EInvalidDomain /\
+  mpanic (api_call_prefix FAdd 0%nat 1%nat (build [SInt 3 1; SInt 0 3])) = true.
+Proof. do 2 eexists. vm_compute. repeat split; reflexivity. Qed.
+Lemma gcc_len_fixed_witness :
+  let m := rbuild_fix2 [SB (SInt 0 3); SB (SInt 0 3); SCall (RGcc [0%nat; 1%nat] [1; 2] [0%nat])] in
+  rverr m = true /\ rpanic m = false /\ rverr (rbuild_ext_fixed [SB (SInt 0 3); SB (SInt 0 3); SCall (RGcc [0%nat; 1%nat] [1; 2] [0%nat])]) = false.
+Proof. vm_compute. repeat split; reflexivity. Qed.
